@@ -2,7 +2,7 @@
 From Coq Require Import String.
 From Coq Require Import List NArith ZArith Bool Arith Lia.
 From Orso Require Import Gen.C18_Tables Model.C18.
-From Orso Require Export Proofs.C18_Select Proofs.C18_Width Proofs.C18_Lines.
+From Orso Require Export Proofs.C18_Select Proofs.C18_Width Proofs.C18_Lines Proofs.C18_Sub.
 Import ListNotations.
 Local Open Scope list_scope.
 
@@ -94,3 +94,26 @@ Proof.
   - exact (wf_pw _ _ (trunc_full_wf s k w H Hw)).
   - exact (wf_pw _ _ (trunc_cut_wf s k w H Hw)).
 Qed.
+
+(* ---------- round 4: subclass instances ---------- *)
+Lemma subclass_cell_as_base (v : value) (s : option text) (w : nat) :
+  is_none (mkcell (VSub v) s) = is_none (mkcell v s) /\
+  cell_str (mkcell (VSub v) s) = cell_str (mkcell v s) /\
+  type_formatter (mkcell (VSub v) s) w = type_formatter (mkcell v s) w.
+Proof. repeat split. Qed.
+
+Lemma subclass_frame_as_base (f : frame) (cfg : config) (cols lim m : nat) :
+  ascii_table (erase_frame f) cfg = ascii_table f cfg /\
+  df_str (erase_frame f) cols = df_str f cols /\
+  markdown (erase_frame f) lim m = markdown f lim m.
+Proof. split; [apply ascii_table_erase|split; [apply df_str_erase|apply markdown_erase]]. Qed.
+
+(* a masked array [1 -- 3]: tolist() is [1, None, 3]; rendered as that list is, never through int(value) *)
+Definition masked_cell : cell := mkcell (VSub (VNpArray (VList [T "1"; T "None"; T "3"]))) (Some (T "[1 -- 3]")).
+Lemma masked_array_renders :
+  type_formatter masked_cell 18
+  = Ok (tok "PUNC" ++ T "['" ++ tok "VALUE" ++ T "1" ++ tok "PUNC" ++ T "', '" ++ tok "VALUE" ++ T "None" ++ tok "PUNC" ++ T "', '"
+        ++ tok "VALUE" ++ T "3" ++ tok "PUNC" ++ T "']" ++ OFF)
+  /\ erase_cell masked_cell <> masked_cell.
+Proof. split; [reflexivity|discriminate]. Qed.
+
